@@ -71,6 +71,12 @@ func H_C12_object(k int, shape int) {
 	vAssume(d1 >= '0' && d1 <= '9' && d2 >= '0' && d2 <= '9' && d1 != '0')
 	num := json.Number(string([]byte{d1, d2}))
 	val := uint64(d1-'0')*10 + uint64(d2-'0')
+	if vBool("one-digit") {
+		// a single digit, zero included: zero times an unknown unit is still an unknown unit
+		num = json.Number(string([]byte{d2}))
+		val = uint64(d2 - '0')
+		vReach("zero-value", val == 0)
+	}
 	unit := vStr("unit", 2)
 	var toks []json.Token
 	var refs []memberRef
